@@ -54,10 +54,10 @@ type c10Case struct {
 func c10World(extra map[string]string) *oracle.World {
 	src := map[string]string{}
 	for i, p := range c10Paths {
-		src[p] = fmt.Sprintf("package %s\n\ntype T%d struct{}\n\nfunc F%d() {}\n\nvar V%d int\n", c10Names[i], i, i, i)
+		src[p] = fmt.Sprintf("package %s\n\ntype T%d struct{}\n\nfunc F%d() {}\n\nvar V%d int\n\nconst K%d = %d\n", c10Names[i], i, i, i, i, i)
 	}
 	// exports the names of dependency 0 as well: only ever dot-imported by a target (Clash)
-	src["q.r/z"] = "package z\n\ntype T0 struct{}\n\nfunc F0() {}\n\nvar V0 int\n\nfunc Z9() {}\n"
+	src["q.r/z"] = "package z\n\ntype T0 struct{}\n\nfunc F0() {}\n\nvar V0 int\n\nconst K0 = 0\n\nfunc Z9() {}\n"
 	for k, v := range extra {
 		src[k] = v
 	}
@@ -79,6 +79,9 @@ func c10Qual(f c10File, i int) string {
 }
 
 // c10Body renders the uses of dependency set `uses` with file f's qualifiers.
+// references per dependency in a body (c10Body) and in the var item
+const c10BodyRefs, c10VarRefs = 8, 4
+
 func c10Body(f c10File, uses int, tag string) string {
 	var b strings.Builder
 	for i := range c10Paths {
@@ -87,6 +90,8 @@ func c10Body(f c10File, uses int, tag string) string {
 		}
 		q := c10Qual(f, i)
 		fmt.Fprintf(&b, "\t%sF%d()\n\tvar %s%d %sT%d = %sT%d{}\n\t_ = %s%d\n\t_ = %sV%d\n", q, i, tag, i, q, i, q, i, tag, i, q, i)
+		// further reference positions: map-literal key, array-literal index key, type assertion
+		fmt.Fprintf(&b, "\t_ = map[int]%sT%d{%sK%d: {}}\n\t_ = [...]int{%sK%d: 1}\n\t_, _ = interface{}(nil).(%sT%d)\n", q, i, q, i, q, i, q, i)
 	}
 	return b.String()
 }
@@ -141,7 +146,7 @@ func c10SourceText(cs c10Case) string {
 		for i := range c10Paths {
 			if cs.Uses&(1<<i) != 0 {
 				q := c10Qual(f, i)
-				elems = append(elems, fmt.Sprintf("%sV%d, %sT%d{}, %sF%d", q, i, q, i, q, i))
+				elems = append(elems, fmt.Sprintf("%sV%d, %sT%d{}, %sF%d, map[int]int{%sK%d: 1}", q, i, q, i, q, i, q, i))
 			}
 		}
 		b.WriteString("var Item = []interface{}{" + strings.Join(elems, ", ") + "}\n\n")
@@ -276,7 +281,7 @@ func c10Load(w *oracle.World, path, text string, resolveLocal bool) (*c10Loaded,
 	return &c10Loaded{file: f, chk: chk}, nil
 }
 
-var c10Ref = regexp.MustCompile(`^[FTV]([0-9])$`)
+var c10Ref = regexp.MustCompile(`^[FTVK]([0-9])$`)
 
 func findFunc(f *dst.File, name string) *dst.FuncDecl {
 	for _, d := range f.Decls {
@@ -351,9 +356,9 @@ func c10Check(cs c10Case) (core.Outcome, bool) {
 	}
 	final, finalPath := tgt.file, cs.Tgt.Pkg
 	expectRefs := 0
-	perItem := 4 * bitsSet(cs.Uses)
+	perItem := c10BodyRefs * bitsSet(cs.Uses)
 	if cs.Item == "var" {
-		perItem = 3 * bitsSet(cs.Uses)
+		perItem = c10VarRefs * bitsSet(cs.Uses)
 	}
 	d, s := takeItem(src.file, cs.Item, "Item")
 	if cs.History == "clone" {
@@ -386,7 +391,7 @@ func c10Check(cs c10Case) (core.Outcome, bool) {
 	case "two":
 		d2, s2 := takeItem(src.file, "func", "Item2")
 		place(tgt.file, d2, s2)
-		expectRefs += 4 * bitsSet(cs.Uses)
+		expectRefs += c10BodyRefs * bitsSet(cs.Uses)
 	case "back":
 		if d != nil {
 			tgt.file.Decls = tgt.file.Decls[:len(tgt.file.Decls)-1]
@@ -471,9 +476,9 @@ func c10Check(cs c10Case) (core.Outcome, bool) {
 	if bad != "" {
 		return fail("moved-reference-rebound", "%s\n%s", bad, out)
 	}
-	keep := 4 * bitsSet(usedSet(c10FileOf(cs, finalPath)))
+	keep := c10BodyRefs * bitsSet(usedSet(c10FileOf(cs, finalPath)))
 	if cs.History == "back" {
-		keep += 4 * bitsSet(cs.Uses) // Item2 still lives in the source
+		keep += c10BodyRefs * bitsSet(cs.Uses) // Item2 still lives in the source
 	}
 	if refs != expectRefs+keep {
 		return fail("moved-reference-lost", "expected %d references in the target, found %d\n%s", expectRefs+keep, refs, out)
